@@ -360,7 +360,20 @@ def main(prop, run, level="proof", lean_module=None, search=None, argv=None):
             else:
                 print("REPRODUCED" if still else "NOT REPRODUCED on the current tree")
                 return 1 if still else 0
-        run(ctx)
+        try:
+            run(ctx)
+        except Infra:
+            raise
+        except Exception as ex:  # noqa
+            # an exception that comes out of the implementation under test during a step the check expects to succeed is
+            # a finding, not an infrastructure failure; anything else is re-raised (exit 2)
+            tb = traceback.extract_tb(ex.__traceback__)
+            in_impl = [f for f in tb if os.path.realpath(f.filename).startswith(os.path.realpath(os.path.join(REPO, "src")))]
+            if not in_impl:
+                raise
+            where = [f"{os.path.basename(f.filename)}:{f.lineno} {f.name}" for f in tb[-6:]]
+            ctx.violation(f"the implementation raised {type(ex).__name__}: {str(ex)[:160]} during a step the check expects to succeed ({where[-1]})",
+                          {"exception": repr(ex)[:400], "traceback": where})
         if ctx.tier == "thorough" and ctx.build_ok:
             ctx.leanchecker()
         code = decide(ctx, level, search)
